@@ -264,9 +264,6 @@ def rule_reentry(model):
                 r.finding(fi.where, n, 'manual acquire/release of the '
                           'compile lock (not exception safe)', node=n,
                           ctx=fi)
-    if len(reach) < 20:
-        raise AnalysisError('C18.R5: locked region reaches fewer than 20 '
-                            'functions: call graph lost')
     return r
 
 
@@ -309,8 +306,48 @@ def rule_namespace(model):
     return r
 
 
+def rule_scanner(model):
+    r = RuleResult('C18.R7', 'the (stateful) tag scanner is created afresh '
+                   'for every compile, never shared between templates')
+    S = model.cls('DT_String', 'String')
+    n = 0
+    for c in [S] + model.subclasses(S):
+        f = c.methods.get('tagre')
+        if f is None:
+            continue
+        for ret in own_nodes(f.node):
+            if isinstance(ret, ast.Return) and ret.value is not None:
+                n += 1
+                fresh = isinstance(ret.value, ast.Call)
+                r.instance(f.where, ret, 'fresh object' if fresh
+                           else 'SHARED object')
+                if not fresh:
+                    # a compiled re pattern is immutable; a scanner
+                    # instance of the repository keeps per-match state
+                    t = model.resolve_name_expr(f.module, ret.value) \
+                        if isinstance(ret.value, (ast.Name, ast.Attribute)) \
+                        else None
+                    stateful = True
+                    if t and t[0] == 'value':
+                        stateful = any(
+                            isinstance(v, ast.Call) and any(
+                                x[0] == 'class' for x in
+                                model.resolve_callee(v.func, f))
+                            for v in t[1])
+                    if stateful:
+                        r.finding(f.where, ret, 'tagre() hands out one '
+                                  'shared scanner object; the scanner keeps '
+                                  'the current match in its instance '
+                                  'attributes, so two compiles running at '
+                                  'once corrupt each other\'s matches',
+                                  node=ret, ctx=f)
+    if n < 2:
+        raise AnalysisError('tagre methods not found')
+    return r
+
+
 RULES = [rule_lock, rule_writers, rule_races, rule_registry, rule_reentry,
-         rule_namespace]
+         rule_namespace, rule_scanner]
 EXPLANATION = (
     'Lock-scope and publication-order check on cook (path-sensitive), '
     'who-may-write query for the volatile compiled state, enumeration of '
